@@ -1052,7 +1052,8 @@ fn is_additional_name_symbol(ch: char) -> bool {
 /// Returns `true` when the specified character is name start character.
 /// Specification: 10.3.1.2 Grammar rules, p.120, grammar rule 28.
 fn is_name_start_char(ch: char) -> bool {
-  matches!(ch, '?' | 'A'..='Z' | '_' | 'a'..='z' |
+  !is_whitespace(ch)
+    && matches!(ch, '?' | 'A'..='Z' | '_' | 'a'..='z' |
                '\u{00C0}'..='\u{00D6}' | '\u{00D8}'..='\u{00F6}' | '\u{00F8}'..='\u{02FF}' |
                '\u{0370}'..='\u{037D}' | '\u{037F}'..='\u{1FFF}' | '\u{200C}'..='\u{200D}' |
                '\u{2070}'..='\u{218F}' | '\u{2C00}'..='\u{2FEF}' | '\u{3001}'..='\u{D7FF}' |
